@@ -780,6 +780,36 @@ def decscale_rule(ctx):
                             and not any(call_matches(c, ['::checked_sub']) for c in helper_side.calls)
     loc0 = short_loc(mod[0].span)
     ctx.ob('DECSCALE', 'serialize/scale-mismatch-errs', ok, loc0, detail)
+    # rescale() to a SMALLER scale rounds (1.25 at scale 1 becomes 1.3): the value written must be checked to be the value
+    # given - the rescaled number is compared with the original (Decimal's == is numeric: 1.20 == 1.2) and a difference
+    # returns Err
+    exact, det_e = False, 'no rescale call'
+    for b in mod:
+        resc = [(bb, t) for bb, t in b.calls() if call_matches(t, ['Decimal::rescale']) and not b.is_cleanup(bb)]
+        if not resc:
+            continue
+        det_e = 'the rescaled decimal is never compared with the original one'
+        for bb, t in b.calls():
+            if b.is_cleanup(bb) or (t.get('callee') or '') not in ('core::cmp::PartialEq::ne', 'core::cmp::PartialEq::eq'):
+                continue
+            if not all('rust_decimal::Decimal' in ty or 'decimal::Decimal' in ty for ty in t.get('arg_tys', [])[:2]) or len(t.get('arg_tys', [])) < 2:
+                continue
+            if not all(b.dominates(rb, bb) for rb, _ in resc):
+                continue
+            sw = t.get('target')
+            if sw is None or b.term(sw)['k'] != 'switch':
+                continue
+            t0 = [x['bb'] for x in b.term(sw)['targets'] if x['v'] == 0]
+            diff_edge = b.term(sw)['otherwise'] if (t.get('callee') or '').endswith('::ne') else (t0[0] if t0 else None)
+            writes = [x for x, t2 in b.calls() if 'serialize_unscaled' in cname(t2) or call_matches(t2, ['Decimal::mantissa'])]
+            same_edge = [s_ for s_ in b.succs(sw) if s_ != diff_edge]
+            # (the big-decimal arm, which does not rescale, joins before the write: every way from the rescale to a write
+            # goes through the "unchanged" edge of this comparison)
+            if diff_edge is not None and all_paths_err(b, diff_edge) and writes and same_edge and \
+                    all(must_pass(b, b.term(rb)['target'], writes, same_edge) for rb, _ in resc):
+                exact = True
+                det_e = 'after rescale(schema scale) the number is compared with the original and a difference (rounding) returns Err before anything is written'
+    ctx.ob('DECSCALE', 'serialize/rescale-is-exact', exact, loc0, det_e)
     ctx.ob('DECSCALE', 'serialize/sign-aware-truncation-helper', uses >= 2, loc0,
            'sign-aware truncation helper called %d time(s) (bytes repr and fixed fit check)' % uses)
     # inside the helper: when the run of sign bytes reaches the end of the buffer (value 0 or -1) one byte is kept.
